@@ -102,7 +102,7 @@ PROPS['C04'] = dict(
     level='other',
     design_ref='DESIGN.md §4 C04, §0.6',
     technique='deductive (kernel): VCs from the real AST of NinjaBuildElement.check_outputs (loop invariant over a shared set), NinjaBuild.add_build, add_rule and the rule-flavour generator of NinjaRule.write; statement sequences and whole manifests through the real classes bounded-exhaustive; generated target-graph projects through the real `meson setup` with the ninja back end (stub ninja) audited by an independent manifest reader',
-    level_text='Proved for all output lists and all previously registered sets: check_outputs registers every output path and marks the element erroneous exactly when a path was registered before (by another statement or earlier in the same one); add_build checks EVERY statement, phony or not, and binds a non-phony one to its defined rule; add_rule rejects a second rule of the same name; a rule is written in its plain flavour iff a statement uses it without a response file and in its _RSP flavour iff one uses it with a response file. The graph-level clauses (every rule used is defined, no path produced twice, acyclic, every input exists or is produced, reachability from all / meson-test-prereq, colliding outputs rejected at configure time) are checked on generated projects through the real meson setup, labelled bounded.',
+    level_text='Proved for all output lists and all previously registered sets: check_outputs registers every output path and marks the element erroneous exactly when a path was registered before (by another statement or earlier in the same one); add_build checks EVERY statement, phony or not, and binds a non-phony one to its defined rule; add_rule rejects a second rule of the same name; a rule is written in its plain flavour iff a statement uses it without a response file and in its _RSP flavour iff one uses it with a response file. The graph-level clauses (every rule used is defined, no path produced twice, acyclic, every input exists or is produced, reachability from all / meson-test-prereq, colliding outputs rejected at configure time) are checked on generated projects through the real meson setup, labelled bounded. What meson-test-prereq / meson-benchmark-prereq are made of is under contract: Backend.get_testlike_targets yields, for a test with at most one argument and one depends: entry (loops unrolled), the target behind the program — whatever kind of target it is —, behind each argument that is a target and behind each depends: entry, in that order and nothing else.',
     level_note='NOT decided deductively: acyclicity, closure of inputs, reachability (whole-graph facts of generate_*), target-name checks of Interpreter.add_target — bounded only, on generated projects of custom / run / alias targets, tests and compiled C targets (gcc is present; executables, static / shared / both libraries, generators, unity, layouts); implicit outputs are not registered by the code (contract scoped to explicit outputs).',
     explanation='kernel: output-collision, rule-binding and rule-flavour bookkeeping proved; graph-level clauses bounded on generated projects',
     not_decided=['dependency graph acyclic (bounded only)', 'every input exists or is produced (bounded only)', 'default and test targets reachable from all / meson-test-prereq (bounded only)', 'subprojects and the repository test corpus as generator inputs'],
